@@ -386,3 +386,35 @@ package logqlmetric
 //@ func build$1
 //@   capture c = call(c.Close, 0)
 //@   ensures[closes-iff-failing] c_called == (rerr != nil)
+
+// ---- C17: safety preconditions (no index / slice / type-assertion panic).
+
+//@ scope vector_agg.go
+
+// container/heap calls Less/Swap with indices in range and Pop on a non-empty heap; Push receives
+// the value given to heap.Push (assumed contract of the library towards its heap.Interface).
+//@ func (*sampleHeap).Min
+//@   requires h != nil && len(h.elements) > 0
+//@   modifies nothing
+//@ func (*sampleHeap).Len
+//@   modifies nothing
+//@   ensures ret0 == len(h.elements)
+//@ func (*sampleHeap).Less
+//@   requires 0 <= i && i < len(h.elements) && 0 <= j && j < len(h.elements)
+//@ func (*sampleHeap).Swap
+//@   requires 0 <= i && i < len(h.elements) && 0 <= j && j < len(h.elements)
+//@   modifies h.elements[*]
+//@ func (*sampleHeap).Push
+//@   requires typeis[Sample](x)
+//@   modifies h.elements, h.elements[*]
+//@   ensures len(h.elements) == old(len(h.elements)) + 1
+//@ func (*sampleHeap).Pop
+//@   requires len(h.elements) > 0
+//@   modifies h.elements
+//@   ensures len(h.elements) == old(len(h.elements)) - 1
+
+//@ scope label_replace.go
+
+// Rewriting a label set touches that set only.
+//@ iface AggregatedLabels.Replace
+//@   modifies self.*
